@@ -50,6 +50,7 @@ def run(ck, F, tier):
     ck.rule("G4", "derived ratios")
     ck.rule("G5", "terminate/join of every worker before any exit; Finished after the last statistics on every path of run()")
     ck.rule("G6", "blocking receive must observe worker death: no live local Sender at recv(); disconnect and worker panic become errors")
+    ck.rule("G7", "what a worker reports per frame is what the counters assume: bit errors over the systematic part, frame_error = bit_errors > 0, false_decode = frame_error && success (the rule C12-B1, run here)")
     ck.trust("mpsc semantics: recv() returns Err only when every Sender has been dropped; JoinHandle::join returns Err when the thread panicked")
 
     # ---- G1 ---------------------------------------------------------------------------------------
@@ -502,3 +503,8 @@ def run(ck, F, tier):
     uj = unwrapped(r"JoinHandle::<T>::join$")
     ck.inst("G6", "join-panic-handled", not uj, uj[0]["sp"] if uj else rb.span,
             "a panicked worker (join() == Err) is turned into an error" if not uj else "handle.join().unwrap(): a worker panic (block sizes that do not fit) propagates as a panic of the collector instead of an error")
+
+    # G7: the counters add up *whole-frame results*; their definition is the worker's (simulate)
+    from ..report import RuleAlias
+    from . import c12
+    c12.run(RuleAlias(ck, "G7", only=lambda r_, k_: r_ == "B1"), F, "quick")
